@@ -100,3 +100,51 @@ PROPS['C01'] = dict(coq=['Properties/C01.v'], **hist_prop(
     'C01', {'C01'}, W(tostr=2), 1200, 30000, hg={'odd': False}))
 PROPS['C15'] = dict(coq=['Properties/C15.v'], **hist_prop(
     'C15', {'C15'}, W(tostr=1), 1000, 30000, hg={'odd': True}))
+
+
+# ---------------------------------------------------------------- direct explorations (harness/direct2.py)
+from . import direct2
+
+
+def direct_prop(runfn, replayfn=None, rule=''):
+    return dict(run=runfn, replay=replayfn or direct2.generic_case_replay(runfn), rule=rule)
+
+
+def _with_extra(histcfg, extra_run, extra_replay=None):
+    """a history property that also runs a direct exploration"""
+    base_run, base_replay = histcfg['run'], histcfg['replay']
+    def run(rep, rng, tier, term):
+        ov, dv = base_run(rep, rng, tier, term)
+        ov2, dv2 = extra_run(rep, rng, tier, term)
+        return ov + ov2, dv + dv2
+    def replay(v, term):
+        if 'history' in v and 'case' not in v:
+            return base_replay(v, term)
+        return (extra_replay or direct2.generic_case_replay(extra_run))(v, term)
+    out = dict(histcfg)
+    out['run'], out['replay'] = run, replay
+    return out
+
+
+PROPS['C02'] = dict(coq=['Properties/C02.v'], **direct_prop(
+    direct2.c02_run, direct2.c02_replay,
+    rule='generated strings interleaving text with SGR sequences (codes from a palette of set/clear/colour-group/incomplete/unknown/empty-parameter codes at every position), non-SGR and unterminated sequences; AnsiString(w) compared with the extracted terminal run on w and with the model; non-trivial = at least one SGR sequence before a character'))
+PROPS['C03'] = dict(coq=['Properties/C03.v'], **direct_prop(
+    direct2.c03_run, direct2.c03_replay,
+    rule='values built by random histories (and parsed inputs): re-parse of every rendering, simplify(), simplify twice, rendering as a fixed point; non-trivial = table with >= 2 change points'))
+PROPS['C10'] = dict(coq=['Properties/C10.v'], **direct_prop(
+    direct2.c10_run, direct2.c10_replay,
+    rule='every str-like method x generated arguments (empty, overlapping, multi-character patterns, counts, negative/None bounds, non-ASCII) on AnsiString and AnsiStr against str on the base text, result and exception type; non-trivial = non-empty text'))
+PROPS['C13'] = dict(coq=['Properties/C13.v'], **direct_prop(
+    direct2.c13_run,
+    rule='twin runs: every shared public method (list computed from the classes at run time) and the shared operators on an AnsiString and an AnsiStr built from the same history, same arguments; results compared by text, per-character settings, 8 renderings, str payload'))
+PROPS['C14'] = dict(coq=['Properties/C14.v'], **direct_prop(
+    direct2.c14_run, direct2.c14_replay,
+    rule='all AnsiFormat names x 6 spellings, all codes 0..255 as int/str/list/verbatim, colour groups flat/nested/joined, rgb/color256 helpers and their string forms with boundary values, random mixtures; model scrubber compared on the same forms'))
+PROPS['C16'] = dict(coq=['Properties/C16.v'], **direct_prop(
+    direct2.c16_run,
+    rule='format_matching / unformat_matching on history-built values against an explicit loop of apply_formatting / remove_formatting over re.finditer matches (escaped or regex, case flag, counts -1..3, empty and adjacent matches)'))
+PROPS['C12'] = _with_extra(PROPS['C12'], direct2.c12fmt_run)
+PROPS['C15'] = _with_extra(PROPS['C15'], direct2.c15_run, direct2.c15_replay)
+PROPS['C17'] = dict(coq=['Properties/C17.v'], **hist_prop(
+    'C17', {'C17'}, W(sat=6, find=12), 1500, 40000, hg={'odd': 'mix'}, extra_oracle=direct2.c17_find_oracle))
